@@ -1,8 +1,9 @@
 // C17 — components documented as shared are safe under concurrent use.
 //
 // Technique: rapid-generated CONCURRENT PROGRAMS (component, 2-8 goroutines, a call list with
-// arguments per goroutine, an interleaving bias = barrier or staggered release + a per-call
-// runtime.Gosched() pattern) run on ONE shared instance of
+// arguments per goroutine, an interleaving bias = channel / spinning / staggered release + a per-call
+// runtime.Gosched() pattern; a third of the programs start every goroutine on the same key) run on ONE
+// shared instance of
 //
 //	fc        ProtoForkChoice through the forkchoice wrapper: ProcessSlot, ProcessBlock, ProcessAttestation,
 //	          UpdateJustified (balances callback, prune sink), SetPin, Pin, Head, FindHead, InSubtree,
@@ -34,20 +35,34 @@
 // A call that panics or blocks in a purely sequential order too is no C17 matter: it is matched by the
 // replay (small) or looked for in three sequential orders (large) and counted under excluded_known.
 //
+// Episode (harness, not code): the first version serialised the decompressed point handed out by
+// CachedPubkey.Pubkey() to compare it; blsu's Serialize normalises the point in place (kilic Affine(p) assigns
+// p to itself), so two goroutines "reading" the same point raced inside the dependency. The harness now
+// serialises a private copy.
+//
 // A failure that depends on the schedule may not reproduce on the first try: the replay path
 // (`check C17 --replay f`) runs the program up to 200 times and stops at the first failure; committed
 // regress programs are run 40 times each at the start of every run.
 //
-// Sensitivity (tools/trymut.py C17 ..., quick tier, 5 runs each, see DESIGN §C17 / final report):
+// Sensitivity (tools/trymut.py C17 <file> <old> <new>, quick tier, seed 1, 5 runs each, with C17_NOREGRESS=1 so
+// that the committed regress programs do not help: the generator alone has to find it). Caught = exit 1.
 //
-//	M1 forkchoice.go   ProcessAttestation: `fc.mu.Lock()` + `defer fc.mu.Unlock()` removed
-//	M2 forkchoice.go   GetSlot: `fc.mu.RLock()` + `defer fc.mu.RUnlock()` removed
-//	M3 voluntary_exits.go  AddVoluntaryExit: `vep.Lock()` + `defer vep.Unlock()` removed
-//	M4 bls.go          the CachedPubkey repair reverted (plain lazy write)
-//	M5 validator_pubkeys.go  AddValidator decides outside the write lock again (check-then-act; linearizability only)
-//	M6 attestations.go Search without the read lock (repair reverted)
-//	M7 sync_committees.go Reset without the lock (repair reverted)
-//	M8 forkchoice.go   Head takes the read lock only (`fc.mu.RLock()`): two Heads apply pending votes at once
+//	M1  forkchoice.go        ProcessAttestation: `fc.mu.Lock()` + `defer fc.mu.Unlock()` removed             5/5 race report (once: fatal "concurrent map read and map write")
+//	M2  forkchoice.go        GetSlot: `fc.mu.RLock()` + `defer fc.mu.RUnlock()` removed                      5/5 race report
+//	M3  voluntary_exits.go   AddVoluntaryExit: `vep.Lock()` + `defer vep.Unlock()` removed                   5/5 race report
+//	M4  bls.go               CachedPubkey repair 2bebd60 reverted (plain lazy write of `decompressed`)         5/5 race report
+//	M5  validator_pubkeys.go AddValidator looks up under RLock, releases, then appends under Lock (303fa24 undone) 5/5 pubkey/non-linearizable (no race to report)
+//	M6  attestations.go      Search without the read lock (476d519 reverted)                                  5/5 race report
+//	M7  sync_committees.go   Reset without the lock (f4bbec8 reverted)                                        5/5 race report
+//	M8  forkchoice.go        Head under `fc.mu.RLock()` only (two Heads apply pending votes at once)          5/5 race report
+//	M9  voluntary_exits.go   AddVoluntaryExit checks under RLock, releases, stores under Lock (check-then-act) 5/5 exit/non-linearizable (no race to report)
+//	M10 proposer_slashings.go All without the read lock                                                       5/5 race report
+//	M11 validator_pubkeys.go Pubkey(i) takes the read lock a second time through ValidatorIndex (deadlocks only when a
+//	                         writer queues up between the two RLocks; sequentially harmless)                  1/1 pubkey/blocked (355 s: 3 x 20 s watchdog per verdict + shrinking)
+//
+// Budgets (16 cores shared with other checks at load 50-120 while measured): quick 4 shards ~ 3-4 CPU-minutes,
+// 90-125 s wall under that load (22-55 s when the box was calmer); thorough 8 shards 58 CPU-minutes, 16 min
+// wall under load ~120.
 package c17
 
 import (
@@ -561,7 +576,12 @@ func (x *checker) runOnce(c *Case, acct bool) *report.Failure {
 	if len(c.Threads) == 0 || len(c.Threads) > 16 {
 		return report.Failf("harness/bad-case", "a program needs 1..16 goroutines")
 	}
-	w, err := newWorld(c)
+	var w world
+	var err error
+	if !report.WithTimeout(watchdog, func() { w, err = newWorld(c) }) {
+		r.Excluded("sequential-blocked:setup") // the single-goroutine prefix did not return: not a C17 matter
+		return nil
+	}
 	if err != nil {
 		if strings.Contains(err.Error(), "panicked") {
 			r.Excluded("sequential-panic:setup")
@@ -572,7 +592,12 @@ func (x *checker) runOnce(c *Case, acct bool) *report.Failure {
 	o := runConcurrent(c, w)
 	if len(o.stuck) > 0 {
 		// a watchdog verdict is believed only if it repeats
-		w2, err2 := newWorld(c)
+		var w2 world
+		var err2 error
+		if !report.WithTimeout(watchdog, func() { w2, err2 = newWorld(c) }) {
+			r.Excluded("sequential-blocked:setup")
+			return nil
+		}
 		if err2 != nil {
 			return report.Failf("harness/setup", "cannot rebuild the instance: %v", err2)
 		}
@@ -582,6 +607,13 @@ func (x *checker) runOnce(c *Case, acct bool) *report.Failure {
 			r.Class("watchdog:unconfirmed")
 			o = o2
 		} else {
+			if blocksSequentially(c) {
+				r.Excluded("sequential-blocked")
+				// a call that hangs in one goroutine will be met again and again: from here on 3 s (still 10^4 x
+				// the duration of a call) instead of 20 s, every verdict is still confirmed by a second run
+				watchdog = 3 * time.Second
+				return nil
+			}
 			return report.Failf(c.Comp+"/blocked", "calls did not return within %v (twice); in flight: %s; history so far:%s", watchdog, strings.Join(o2.stuck, "; "), o2.dump(c))
 		}
 	}
@@ -638,6 +670,21 @@ func (x *checker) runOnce(c *Case, acct bool) *report.Failure {
 		x.account(c, o, info, lin)
 	}
 	return nil
+}
+
+// blocksSequentially: do the same calls, thread after thread in one goroutine, also fail to return?
+func blocksSequentially(c *Case) bool {
+	return !report.WithTimeout(watchdog, func() {
+		w, err := newWorld(c)
+		if err != nil {
+			return
+		}
+		for g := range c.Threads {
+			for j := range c.Threads[g] {
+				w.do(g, &c.Threads[g][j])
+			}
+		}
+	})
 }
 
 // replayIsDeterministic guards the linearizability verdict against the harness: the same sequential
